@@ -1142,6 +1142,246 @@ def r11_no_retokenising(run):
     run.extra['c08_r11_getters'] = [f.qual for f in funcs]
 
 
+# ---------------------------------------------------------------------------
+# R12 the JSON getter converts with the CONFIGURED JSON handler
+# ---------------------------------------------------------------------------
+# The reference conversion of get_param_as_json is the JSON media handler the
+# application configured in req_options.media_handlers; the stock handler is
+# only the fallback of an application that has none.  "The configured JSON
+# handler" is what the handler collection's RESOLVER answers for the JSON media
+# type: the resolver also finds a handler registered under a parameterised /
+# differently spelled key ('application/json; charset=UTF-8') -- a plain mapping
+# lookup on the collection (`.get(k)`, `[k]`, `k in handlers`) does not.
+
+_HANDLER_COLLECTION_ATTR = 'media_handlers'     # public attribute of RequestOptions
+_RESOLVER_METHODS = ('_resolve',)                # Handlers._resolve(media_type, default, raise_not_found=True)
+_MAPPING_METHODS = ('get', 'pop', 'setdefault', '__getitem__', '__contains__', 'keys', 'values', 'items')
+_JSON_TYPE_CONST = 'falcon.constants.MEDIA_JSON'
+
+
+def r12_json_handler_resolved(run):
+    """get_param_as_json converts with the handler the collection's resolver gives for the JSON media type
+    (`media_handlers._resolve(MEDIA_JSON, MEDIA_JSON, raise_not_found=False)`), the module's default JSON handler
+    only where the resolver answered nothing.  A mapping lookup on the collection is not the resolver.
+    W: media_handlers = Handlers({'application/json; charset=UTF-8': DecimalJSONHandler()}); ?p=1.50 ->
+    get_param_as_json('p') == 1.5 (float, stock json.loads) while req.media still uses the custom handler."""
+    p = run.project
+    f = p.func(WSGI_REQ + '.get_param_as_json')
+    cfg = cfg_of(f, p)
+    run.use_cfg(cfg)
+    rd = ReachingDefs(cfg)
+    asg = {}
+    for a in walk_no_nested(f.node):
+        if isinstance(a, ast.Assign) and len(a.targets) == 1 and isinstance(a.targets[0], ast.Name):
+            asg.setdefault(a.targets[0].id, []).append(a.value)
+    cm = p.module('falcon.constants')
+    json_type = p.fold(cm, cm.consts['MEDIA_JSON']) if 'MEDIA_JSON' in cm.consts else UNK
+    if not isinstance(json_type, str):
+        raise AnchorError('%s is not a constant string' % _JSON_TYPE_CONST)
+
+    def is_collection(e, depth=0) -> bool:
+        if isinstance(e, ast.Attribute) and e.attr == _HANDLER_COLLECTION_ATTR:
+            return True
+        if isinstance(e, ast.Attribute) and e.attr == 'data':
+            return is_collection(e.value, depth)
+        if isinstance(e, ast.Name) and depth < 3 and e.id not in f.params():
+            vals = asg.get(e.id, [])
+            return bool(vals) and all(is_collection(v, depth + 1) for v in vals)
+        return False
+
+    def mapping_lookup(e) -> bool:
+        if isinstance(e, ast.Subscript) and is_collection(e.value):
+            return True
+        if isinstance(e, ast.Call) and isinstance(e.func, ast.Attribute) and e.func.attr in _MAPPING_METHODS and is_collection(e.func.value):
+            return True
+        return (isinstance(e, ast.Compare) and len(e.ops) == 1 and isinstance(e.ops[0], (ast.In, ast.NotIn))
+                and is_collection(e.comparators[0]))
+
+    def resolver_call(e) -> bool:
+        return (isinstance(e, ast.Call) and isinstance(e.func, ast.Attribute) and e.func.attr in _RESOLVER_METHODS
+                and is_collection(e.func.value))
+
+    def is_default_handler(e) -> bool:
+        """a module-level handler object of the package (or a fresh handler instance): no request / option involved"""
+        if isinstance(e, (ast.Name, ast.Attribute)):
+            q = p.resolve_expr(f.module, e, f)
+            if q:
+                head, _, tail = q.rpartition('.')
+                m = p.modules.get(head)
+                return m is not None and tail in m.consts
+        if isinstance(e, ast.Call) and not e.args and not e.keywords:
+            t = p.resolve_callable(f, e.func)
+            return getattr(t, 'qual', '') in p.classes
+        return False
+
+    resolver_sites: list = []
+    lookups: list = []
+
+    def classify(e, nid, depth=0) -> str:
+        """'resolver' | 'fallback' | 'resolver-or-fallback' | 'mapping' ; UnknownIdiom otherwise"""
+        if depth > 4:
+            raise UnknownIdiom('get_param_as_json: handler expression too deep')
+        if isinstance(e, ast.Subscript) and resolver_call(e.value) and isinstance(e.slice, ast.Constant) and e.slice.value == 0:
+            resolver_sites.append(e.value)
+            return 'resolver'
+        if isinstance(e, ast.Subscript) and isinstance(e.value, ast.Name) and isinstance(e.slice, ast.Constant) and e.slice.value == 0:
+            ds = rd.at(nid, e.value.id)     # `resolved = <collection>._resolve(...)` ... `resolved[0]`
+            if ds and all(d.how == 'assign' and d.value is not None and resolver_call(d.value) for d in ds):
+                resolver_sites.extend(d.value for d in ds)
+                return 'resolver'
+        if mapping_lookup(e):
+            lookups.append(e)
+            return 'mapping'
+        if is_default_handler(e):
+            return 'fallback'
+        if isinstance(e, ast.BoolOp) and isinstance(e.op, ast.Or):
+            kinds = [classify(v, nid, depth + 1) for v in e.values]
+            if 'mapping' in kinds:
+                return 'mapping'
+            if all(k == 'resolver' for k in kinds[:-1]) and kinds[-1] in ('fallback', 'resolver'):
+                return 'resolver-or-fallback'
+            raise UnknownIdiom('get_param_as_json: handler chosen by %s' % short(e, 80))
+        if isinstance(e, ast.IfExp):
+            kinds = {classify(e.body, nid, depth + 1), classify(e.orelse, nid, depth + 1)}
+            if 'mapping' in kinds or any(mapping_lookup(x) for x in walk_self(e.test)):
+                lookups.extend(x for x in walk_self(e.test) if mapping_lookup(x))
+                return 'mapping'
+            return 'resolver-or-fallback' if kinds & {'resolver', 'resolver-or-fallback'} else 'fallback'
+        if isinstance(e, ast.Name):
+            return of_name(e.id, nid, depth + 1)
+        raise UnknownIdiom('get_param_as_json: cannot tell where the handler %s comes from' % short(e, 80))
+
+    def of_name(name, nid, depth) -> str:
+        defs = rd.at(nid, name)
+        if not defs:
+            raise UnknownIdiom('get_param_as_json: no definition of %s reaches its use' % name)
+        kinds = set()
+        for d in defs:
+            dn = node_of(cfg, d.stmt) if isinstance(d.stmt, ast.stmt) else nid
+            if d.how == 'unpack':
+                if resolver_call(d.src) and d.index == 0:
+                    resolver_sites.append(d.src)
+                    kinds.add('resolver')
+                    continue
+                raise UnknownIdiom('get_param_as_json: %s is unpacked from %s' % (name, short(d.src, 80)))
+            if d.how != 'assign' or d.value is None:
+                raise UnknownIdiom('get_param_as_json: %s is bound by %s' % (name, short(d.stmt, 80)))
+            k = classify(d.value, dn, depth)
+            if k == 'fallback':
+                # the fallback may only replace a resolver answer of "nothing": behind `<name> is None` / `not <name>`
+                known_none = None
+                for test, truth in branch_facts(cfg, dn):
+                    r = _none_fact(test, truth, name)
+                    if r is not None:
+                        known_none = (r is False)
+                    elif implied(test, truth, lambda x: _is_name(x, name)) is False:
+                        known_none = True
+                    if any(mapping_lookup(x) for x in walk_self(test)):
+                        lookups.extend(x for x in walk_self(test) if mapping_lookup(x))
+                        k = 'mapping'
+                if k == 'fallback' and known_none is not True:
+                    k = 'unguarded-fallback'
+            kinds.add(k)
+        if 'mapping' in kinds:
+            return 'mapping'
+        if 'unguarded-fallback' in kinds:
+            return 'unguarded-fallback'
+        if kinds & {'resolver', 'resolver-or-fallback'}:
+            return 'resolver-or-fallback' if 'fallback' in kinds or 'resolver-or-fallback' in kinds else 'resolver'
+        return 'fallback-only'
+
+    calls = [c for c in walk_no_nested(f.node) if isinstance(c, ast.Call) and isinstance(c.func, ast.Attribute) and c.func.attr == 'deserialize']
+    if not calls:
+        raise AnchorError('get_param_as_json: no handler.deserialize(...) call')
+    for c in calls:
+        nid = node_of(cfg, c)
+        kind = classify(c.func.value, nid)
+        if kind in ('resolver', 'resolver-or-fallback'):
+            run.ok('get_param_as_json converts with the handler the collection\'s resolver gives for the JSON media type '
+                   '(the stock handler only where the resolver answered nothing)', f.loc(c), c.func.value)
+        elif kind == 'mapping':
+            seen = set()
+            for lk in lookups:
+                if short(lk) in seen:
+                    continue
+                seen.add(short(lk))
+                run.fail('get_param_as_json looks its handler up in the handler collection as in a plain mapping instead of asking the resolver: '
+                         'a JSON handler registered under a parameterised / differently spelled key is not found and the stock json.loads silently takes over',
+                         f, lk, where=f.loc(lk), witness=['converted by %s' % short(c, 90)],
+                         runtime_witness="media_handlers = Handlers({'application/json; charset=UTF-8': DecimalJSONHandler()}); ?p=1.50 -> "
+                                         "get_param_as_json('p') == 1.5 (float) instead of Decimal('1.50'); req.media still uses the custom handler")
+        else:
+            run.fail('get_param_as_json converts with the stock JSON handler although the application may have configured its own '
+                     '(the default handler is used without the resolver having answered "nothing")', f, c.func.value, where=f.loc(c),
+                     witness=['handler provenance: %s' % kind],
+                     runtime_witness='media_handlers[MEDIA_JSON] = DecimalJSONHandler(); ?p=1.50 -> get_param_as_json(\'p\') is a float')
+    # what the resolver is asked for
+    seen_sites = []
+    for rc in resolver_sites:
+        if any(rc is x for x in seen_sites):
+            continue
+        seen_sites.append(rc)
+        names = ('media_type', 'default', 'raise_not_found')
+        given = dict(zip(names, rc.args))
+        given.update({k.arg: k.value for k in rc.keywords if k.arg})
+        mt = p.fold(f.module, given['media_type'], None, f) if 'media_type' in given else UNK
+        df = p.fold(f.module, given['default'], None, f) if 'default' in given else UNK
+        if mt is UNK or ('default' in given and df is UNK):
+            raise UnknownIdiom('get_param_as_json: the media type handed to the resolver is not a constant: %s' % short(rc, 90))
+        eff = df if (mt in ('*/*', '', None)) else mt
+        run.check(eff == json_type, 'the resolver is asked for the JSON media type (%r)' % json_type, f, rc,
+                  witness=['media_type=%r default=%r' % (mt, df)],
+                  runtime_witness='get_param_as_json decodes with the handler of another media type')
+        rnf = given.get('raise_not_found')
+        rv = p.fold(f.module, rnf, None, f) if rnf is not None else True
+        if rv is UNK:
+            raise UnknownIdiom('get_param_as_json: raise_not_found=%s is not a constant' % short(rnf))
+        run.check(rv is False, 'a missing JSON handler is tolerated by the resolver call (raise_not_found=False): the stock handler is the fallback', f, rc,
+                  witness=['raise_not_found=%r' % (rv,)],
+                  runtime_witness='an app that removed its JSON media handler gets 415 Unsupported Media Type from get_param_as_json instead of the parsed value')
+
+
+# ---------------------------------------------------------------------------
+# R13 the parameter mapping belongs to ONE request (shared with C06 R8)
+# ---------------------------------------------------------------------------
+
+_PARAM_STATE = ('_params', 'query_string')     # the constructor attributes the parameter mapping is made of
+
+
+class _OnlyAbout:
+    """A view of the Run that lets through only the obligations that speak about the given attributes (a shared
+    rule may examine more than this property is about)."""
+
+    def __init__(self, run, words):
+        self._run, self._words = run, words
+
+    def __getattr__(self, name):
+        return getattr(self._run, name)
+
+    def _relevant(self, what, construct) -> bool:
+        text = '%s %s' % (what, construct if isinstance(construct, str) else (ast.unparse(construct) if isinstance(construct, ast.AST) else ''))
+        return any(('self.%s ' % w) in text or ('.%s ' % w) in text or (' %s ' % w) in text or ('%s =' % w) in text for w in self._words)
+
+    def check(self, cond, what, func, construct, **kw):
+        if cond or self._relevant(what, construct):
+            return self._run.check(cond, what, func, construct, **kw)
+
+    def fail(self, what, func, construct, **kw):
+        if self._relevant(what, construct):
+            return self._run.fail(what, func, construct, **kw)
+
+
+def r13_params_per_request(run):
+    """"The request's parameter mapping equals the reading of ITS OWN query string": `_params` (and `query_string`) are
+    bound on every constructor path of both request classes, or fall back to an IMMUTABLE class-level default.  A mutable
+    class default is one dict shared by every request that skips the assignment (C06 R8 decides it for every constructor
+    attribute; only the obligations about the parameter state count here).
+    W: ASGI `_params = {}` at class level, no query string: req.params.setdefault('limit', '10') in one request is
+    seen by has_param / get_param_as_int(default=...) of every later request without a query string."""
+    from . import c06 as _c06
+    _c06.r8_ctor_definite_assignment(_OnlyAbout(run, _PARAM_STATE))
+
+
 def check(run):
     run.assume('the pure-Python parse_query_string/decode are decided; the Cython twin (falcon/cyutil/uri.pyx) replaces them when importable and is not analysed')
     run.assume('E5 assumptions: str/bytes methods and in-range slices are total; UTF-8 encoding of text without lone surrogates is total; '
@@ -1164,3 +1404,9 @@ def check(run):
     run.rule('R6', _c10._safe(_c10.r2_escape_shape), '_HEX_TO_BYTE covers every hex pair of both cases (shared with C10 R2)', floor=10)
     run.rule('R7', _c10._safe(_c10.r4_decoder_paths), 'decoder paths share one skeleton; plus handling (shared with C10 R4)', floor=20)
     run.rule('R11', r11_no_retokenising, 'a typed getter converts the elements the parser stored: no second tokenising of a stored value under default arguments', floor=9)
+    run.rule('R12', r12_json_handler_resolved, 'get_param_as_json converts with the handler the collection\'s resolver gives for the JSON media type '
+             '(no plain mapping lookup on media_handlers; stock handler only as the fallback)', floor=1)
+    # the parameter mapping of a request is the reading of ITS OWN query string: bound on every constructor path, or
+    # an immutable class default (a mutable class-level default is one dict shared by every request without a query string)
+    run.rule('R13', r13_params_per_request, 'req.params is per request: _params bound on every constructor path or an immutable class '
+             'default, both stacks (shared with C06 R8)', floor=2)
